@@ -6,6 +6,7 @@ import (
 	"math/rand"
 	"os"
 	"sort"
+	"sync/atomic"
 	"time"
 
 	"github.com/biogo/biogo/morass"
@@ -67,6 +68,20 @@ type c11Hist struct {
 	ReuseDest bool `json:"one_destination_variable_for_all_pulls,omitempty"`
 	// LowFdLimit: the history runs with a descriptor limit of 40 above what is open at its start, collector off
 	LowFdLimit bool `json:"descriptor_limit_lowered,omitempty"`
+	// LateFlags: the sorter starts with AutoClear and AutoClean off; the caller sets the history's flags (public fields)
+	// only when it knows which cycle is the last: at the start of cycle FlagsFrom or, with FlagsMidDrain, after half of
+	// that cycle's pulls. Only histories with AutoClean have it.
+	LateFlags     bool `json:"flags_set_later,omitempty"`
+	FlagsFrom     int  `json:"flags_set_from_cycle,omitempty"`
+	FlagsMidDrain bool `json:"flags_set_half_way_through_that_cycles_pulls,omitempty"`
+}
+
+// c11LateFlags lets half of the histories with AutoClean set their flags late.
+func c11LateFlags(rng *rand.Rand, h *c11Hist) {
+	if !h.AutoClean || len(h.Cycles) == 0 || rng.Intn(2) == 0 {
+		return
+	}
+	h.LateFlags, h.FlagsFrom, h.FlagsMidDrain = true, rng.Intn(len(h.Cycles)), rng.Intn(2) == 0
 }
 
 func (h c11Hist) word() string {
@@ -86,6 +101,9 @@ func (h c11Hist) word() string {
 		if c.Abandoned {
 			w += "A;"
 		}
+	}
+	if h.LateFlags {
+		w += fmt.Sprintf("late%d%v", h.FlagsFrom, h.FlagsMidDrain)
 	}
 	return w
 }
@@ -121,6 +139,7 @@ func c11GenHist(rng *rand.Rand, maxCycles int) c11Hist {
 	}
 	// AutoClean: the first cycle drained to io.EOF is the sorter's last (the history stops there)
 	h.AutoClean = rng.Intn(6) == 0
+	c11LateFlags(rng, &h)
 	for i := 0; i+1 < len(h.Cycles); i++ {
 		if rng.Intn(8) == 0 {
 			h.Cycles[i].Abandoned = true
@@ -137,6 +156,9 @@ func c11GenHist(rng *rand.Rand, maxCycles int) c11Hist {
 		for i := 0; i+1 < len(h.Cycles); i++ {
 			if c := &h.Cycles[i]; !c.Faulted && len(c.Keys) > h.Chunk && rng.Intn(8) == 0 {
 				c.WriteFault = 1 + rng.Intn(len(c.Keys))
+				if h.Concurrent && rng.Intn(2) == 0 {
+					c.Abandoned = true // Clear meets a background writer whose write is about to fail
+				}
 			}
 		}
 	}
@@ -204,21 +226,23 @@ func c11Enumerated(idx int, rng *rand.Rand) (c11Hist, bool) {
 const c11EnumTotal = (10 + 100 + 1000) * 8
 
 type c11Result struct {
-	class, what  string
-	spills       int
-	memCycles    int
-	pulls        int
-	writeFaulted int    // cycles in which a write to a run file was made to fail
-	abandoned    int    // cycles given up with Clear before Finalise
-	abandonedDir bool   // ... in a history whose directory is inspected (C13)
-	faulted      int    // cycles run with the directory missing
-	faultedSeen  int    // ... in which Push or Finalise reported an error
-	dir          string // the sorter's scratch parent directory (caller removes it)
-	residue      []string
-	refusedPush  int  // pushes of a value of another type that the sorter refused
-	refusedPull  int  // pulls into a destination that cannot be set
-	foreignTaken bool // the sorter accepted a value of another type: the rest of the history is not judged
-	reusedPulls  int  // pulls into a destination variable that already held an earlier value
+	class, what     string
+	spills          int
+	memCycles       int
+	pulls           int
+	writeFaulted    int    // cycles in which a write to a run file was made to fail
+	abandoned       int    // cycles given up with Clear before Finalise
+	abandonedDir    bool   // ... in a history whose directory is inspected (C13)
+	faulted         int    // cycles run with the directory missing
+	faultedSeen     int    // ... in which Push or Finalise reported an error
+	dir             string // the sorter's scratch parent directory (caller removes it)
+	residue         []string
+	refusedPush     int  // pushes of a value of another type that the sorter refused
+	refusedPull     int  // pulls into a destination that cannot be set
+	foreignTaken    bool // the sorter accepted a value of another type: the rest of the history is not judged
+	reusedPulls     int  // pulls into a destination variable that already held an earlier value
+	lateFlagSets    int  // times the caller set AutoClear/AutoClean on a sorter already in use
+	lateWriteFaults int  // write failures of a background writer that arrived after the caller had moved on to Finalise/Clear
 }
 
 // c11RunHist executes a history on a real Morass, checking the model after every call.
@@ -242,7 +266,21 @@ func c11RunOn(h c11Hist, m *morass.Morass, sorterDir string, checkResidue bool) 
 	}
 	payload := 0
 	cleanedByAutoClean := false
+	// the flags in force: the history's own, or none until a late-setting caller sets them
+	autoClear, autoClean := h.AutoClear, h.AutoClean
+	if h.LateFlags {
+		autoClear, autoClean = false, false
+		m.AutoClear, m.AutoClean = false, false
+	}
+	setFlags := func() {
+		autoClear, autoClean = h.AutoClear, h.AutoClean
+		m.AutoClear, m.AutoClean = h.AutoClear, h.AutoClean
+		res.lateFlagSets++
+	}
 	for ci, cyc := range h.Cycles {
+		if h.LateFlags && ci == h.FlagsFrom && !h.FlagsMidDrain {
+			setFlags()
+		}
 		when := func(s string) string {
 			return fmt.Sprintf("cycle %d (%d pushes, chunk %d): %s", ci, len(cyc.Keys), h.Chunk, s)
 		}
@@ -250,18 +288,32 @@ func c11RunOn(h c11Hist, m *morass.Morass, sorterDir string, checkResidue bool) 
 			// a cycle in which a write to a run file fails (its errors are C13's business); given up with Clear, after
 			// Finalise or - when the cycle is an abandoned one - with background writers possibly still at work
 			var nw int64
+			// in concurrent mode the failing write is held back until the caller is about to give the cycle up, so that
+			// the failure arrives while Finalise or Clear is already under way (bounded: a Push may be waiting for that
+			// very writer)
+			var gate chan struct{}
+			var fired int32
+			if h.Concurrent {
+				gate = make(chan struct{})
+			}
 			morass.VerifSetWrap(func(f *os.File) (io.Writer, io.Reader) {
-				return c11FailWriter{f, &nw, int64(cyc.WriteFault)}, f
+				return c11FailWriter{f, &nw, int64(cyc.WriteFault), gate, &fired}, f
 			})
 			for _, k := range cyc.Keys {
 				if err := m.Push(el.mk(k, -3)); err != nil {
 					break
 				}
 			}
+			if gate != nil {
+				close(gate)
+			}
 			if !cyc.Abandoned {
 				m.Finalise()
 			}
 			err := m.Clear()
+			if atomic.LoadInt32(&fired) == 2 {
+				res.lateWriteFaults++
+			}
 			morass.VerifSetWrap(nil)
 			if err != nil {
 				return fail("clear-error", when(fmt.Sprintf("Clear after a cycle whose write #%d to a run file failed returned %v", cyc.WriteFault, err)))
@@ -417,6 +469,9 @@ func c11RunOn(h c11Hist, m *morass.Morass, sorterDir string, checkResidue bool) 
 			return true
 		}
 		for i := 0; i < want; i++ {
+			if h.LateFlags && h.FlagsMidDrain && ci == h.FlagsFrom && i == want/2 {
+				setFlags()
+			}
 			if cyc.BadPull == i+1 && !badPull(i) {
 				return res
 			}
@@ -443,6 +498,9 @@ func c11RunOn(h c11Hist, m *morass.Morass, sorterDir string, checkResidue bool) 
 				return fail("pos-len", when(fmt.Sprintf("after pull %d Pos=%d Len=%d", i, m.Pos(), m.Len())))
 			}
 		}
+		if h.LateFlags && h.FlagsMidDrain && ci == h.FlagsFrom && want == 0 {
+			setFlags()
+		}
 		if cyc.BadPull == want+1 && want < len(cyc.Keys) && !badPull(want) {
 			return res
 		}
@@ -458,24 +516,24 @@ func c11RunOn(h c11Hist, m *morass.Morass, sorterDir string, checkResidue bool) 
 				}
 				// the exhausted pull leaves the counters alone; with AutoClear (or AutoClean) it closed the cycle
 				wantPos, wantLen := int64(len(cyc.Keys)), int64(len(cyc.Keys))
-				if h.AutoClear {
+				if autoClear {
 					wantPos, wantLen = 0, 0
 				}
-				if !h.AutoClean && (m.Pos() != wantPos || m.Len() != wantLen) {
+				if !autoClean && (m.Pos() != wantPos || m.Len() != wantLen) {
 					return fail("pos-len", when(fmt.Sprintf("after the io.EOF pull #%d Pos=%d Len=%d, want %d and %d", x+1, m.Pos(), m.Len(), wantPos, wantLen)))
 				}
 			}
 			eof = true
-			if h.AutoClean {
+			if autoClean {
 				cleanedByAutoClean = true
 			}
 		}
 		if checkResidue && eof && sorterDir != "" {
-			if h.AutoClean {
+			if autoClean {
 				if _, err := os.Stat(sorterDir); err == nil {
 					return fail("autoclean-residue", when("drained with AutoClean set but the temporary directory still exists"))
 				}
-			} else if h.AutoClear {
+			} else if autoClear {
 				ents, _ := os.ReadDir(sorterDir)
 				if len(ents) != 0 {
 					return fail("autoclear-residue", when(fmt.Sprintf("drained with AutoClear set but %d run files remain", len(ents))))
@@ -485,7 +543,7 @@ func c11RunOn(h c11Hist, m *morass.Morass, sorterDir string, checkResidue bool) 
 		if cleanedByAutoClean {
 			break // the sorter's directory is gone; no further cycles are possible
 		}
-		if !(h.AutoClear && eof) {
+		if !(autoClear && eof) {
 			if err := m.Clear(); err != nil {
 				return fail("clear-error", when("Clear returned "+err.Error()))
 			}
@@ -636,6 +694,8 @@ func c11Case(r *obs.Run, i int) {
 	r.Count("pushes_of_another_type_refused", int64(res.refusedPush+res2.refusedPush))
 	r.Count("pulls_into_a_non_pointer", int64(res.refusedPull+res2.refusedPull))
 	r.Count("pulls_into_a_reused_destination", int64(res.reusedPulls+res2.reusedPulls))
+	r.Count("histories_setting_the_flags_on_a_sorter_already_in_use", int64(res.lateFlagSets+res2.lateFlagSets))
+	r.Count("write_failures_arriving_after_the_caller_moved_on_to_finalise_or_clear", int64(res.lateWriteFaults+res2.lateWriteFaults))
 	if res.foreignTaken || res2.foreignTaken {
 		r.Count("histories_not_judged_after_a_foreign_value_was_accepted", 1)
 	}
